@@ -29,6 +29,7 @@ type Config struct {
 	Customs     bool   // emit custom sections
 	SpecialHost bool   // import env.grow (i32)->i32 and env.callback (i32)->i32
 	HostModule  string // module name of the host imports ("" = "env")
+	CallRich    bool   // bias statements and expressions towards calls (C20)
 	Enter       bool   // weave a call to the host import enter(i32 funcIndex) into every function entry (ground truth for C20)
 	WASI        bool   // import a few wasi_snapshot_preview1 functions and use them
 }
@@ -82,6 +83,7 @@ type gen struct {
 	funcTable int // index of a funcref table or -1
 	fuelIdx   uint32
 	wasiFdWr  int
+	nimp      int // number of imported functions
 	enterIdx  int // function index of the "enter" import or -1; never called by generated code
 }
 
@@ -210,6 +212,7 @@ func (g *gen) module() {
 		g.out.Funcs = append(g.out.Funcs, FuncInfo{Index: uint32(g.wasiFdWr), Sig: s, Imported: true, HostName: "wasi:fd_write"})
 	}
 	nimp := len(g.sigs)
+	g.nimp = nimp
 
 	// --- memory ---
 	if !cfg.NoMemory && g.chance(92, "hasmem") {
@@ -759,6 +762,12 @@ var stmtKinds = []string{"localset", "localset", "globalset", "store", "store", 
 func (g *gen) stmt() (terminated bool) {
 	d := g.cfg.MaxDepth
 	kind := stmtKinds[g.intn(len(stmtKinds), "stmt")]
+	if g.cfg.CallRich && g.chance(50, "callrich") {
+		kind = "call"
+		if g.funcTable >= 0 && g.chance(30, "callrichind") {
+			kind = "callind"
+		}
+	}
 	switch kind {
 	case "localset":
 		if len(g.f.locals) == 0 {
@@ -799,6 +808,9 @@ func (g *gen) stmt() (terminated bool) {
 		}
 	case "call":
 		fn := g.anyFn(len(g.sigs), "callfn")
+		if g.cfg.CallRich && len(g.sigs) > g.nimp && g.chance(70, "callwasm") {
+			fn = uint32(g.nimp + g.intn(len(g.sigs)-g.nimp, "callwasmfn"))
+		}
 		g.call(fn)
 		for range g.sigs[fn].R {
 			g.op1("drop", 0x1a)
@@ -1379,6 +1391,9 @@ func (g *gen) expr(ty byte, depth int) {
 	}
 	if ty == FuncRef || ty == ExternRef {
 		g.refExpr(ty, depth)
+		return
+	}
+	if g.cfg.CallRich && g.chance(12, "callrichexpr") && g.callExpr(ty) {
 		return
 	}
 	k := g.intn(100, "expr")
